@@ -9,6 +9,8 @@ TRUST = ('Trusted: nightly MIR == what stable rustc builds (counterexamples are 
          '(listed per run in the evidence, validated by the concrete differential self-test against the native binary). ')
 
 CLAIMED = {
+    'C20': ('get_url_params runs from MIR with url::Url::path()/query() replaced by symbolic strings (every string over the alphabet the url crate can return, path <=3 (4) and query <=6 (9) characters, plus structured queries with 0..2 attributes, scope word, filter and 0..2 extensions with symbolic criticality, letter case and values); a reference RFC 4516 splitter / percent-decoder written for the check gives the expected components, defaults and the three error classes; z3 discharges each comparison. Counterexamples are replayed through the real url crate.',
+            TRUST + "Stub contract for url::Url accessors (alphabet; path empty or starting with '/'), validated on every replay. Strings beyond the bounds are outside the claim.", '§6 C20'),
     'C08': ('The whole nom grammar of src/filter.rs is executed from MIR. Raw lane: every byte string of <=5 (7) bytes over all 256 values is compared with a forking reference RFC 4515 parser/compiler written for the check (accepted iff in the grammar + documented extensions; BER equals the encoding of the syntax tree; no path panics). Grammar lane: 23 symbolic AST shapes (all item kinds, substring patterns, every extensible-match combination, and/or/not nesting) printed with a symbolic raw-or-\\hh choice per value byte and symbolic hex case.',
             TRUST + 'nom combinator glue is modelled from nom 7.1.3 source. Strings longer than the bounds and ASTs outside the 23 shapes are outside the claim; a dot-less numeric OID is tolerated.', '§6 C08'),
     'C09': ('ldap_escape, dn_escape and ldap_unescape run from MIR over every well-formed UTF-8 string of <=3 (5) bytes (full byte range incl. NUL, metacharacters, multi-byte sequences): z3 proves the escaped text reads back to v under reference RFC 4515 / RFC 4514 value readers written for the check, unchanged-when-nothing-to-escape, ldap_unescape(ldap_escape(v)) == v, and that (a=<esc>) / (a=x*<esc>*y) parse (real grammar, from MIR) to the same structure with value v.',
